@@ -1,7 +1,9 @@
 package rsyncos
 
 import (
+	"fmt"
 	"io"
+	"os"
 
 	"github.com/gokrazy/rsync/internal/log"
 )
@@ -12,6 +14,11 @@ type Env struct {
 	Stderr io.Writer
 
 	DontRestrict bool
+
+	// NoExit is set when command-line arguments come from a network peer
+	// (rsync daemon): options like --help or --version, which make the
+	// command-line tool print something and exit, are an error instead.
+	NoExit bool
 
 	logger log.Logger
 }
@@ -33,3 +40,14 @@ func (s *Env) Logf(format string, v ...any) {
 }
 
 func (s *Env) Restrict() bool { return !s.DontRestrict }
+
+// Exit terminates the process with the specified code (like the rsync
+// command-line tool does after printing its help text or version), unless
+// NoExit is set, in which case it returns an error.
+func (s *Env) Exit(code int) error {
+	if s.NoExit {
+		return fmt.Errorf("option not permitted here (would exit with code %d)", code)
+	}
+	os.Exit(code)
+	return nil
+}
